@@ -152,6 +152,7 @@ fn replay<H: HX>(a: &Args, sink: &mut Sink) {
 fn probe<H: HX>(a: &Args) {
     use std::panic::{catch_unwind, AssertUnwindSafe};
     TRACK.with(|t| t.set(true));
+    UNWIND_DROPS.with(|u| u.set(false));
     let live0 = LIVE.with(|l| l.get());
     let f = std::fs::File::open(&a.input).expect("cannot open input");
     let mut q: AnyQ<H> = AnyQ::new(Kind::Pq);
